@@ -295,12 +295,9 @@ pub fn lazy_vs_eager_f32_n3_p8() {
     assert!(e.is_ok() == l.is_ok(), "C05/C19: lazy and eager constructors disagree on accepting the table");
     if let (Ok(e), Ok(l)) = (e, l) {
         let s: usize = any();
+        assert!(l.left_cumulative_and_probability(s) == e.left_cumulative_and_probability(s), "C05: lazy model differs from eager model (encoder view)");
         let q: u8 = any();
-        if group(2) == 0 {
-            assert!(l.left_cumulative_and_probability(s) == e.left_cumulative_and_probability(s), "C05: lazy model differs from eager model (encoder view)");
-            assert!(l.quantile_function(q) == e.quantile_function(q), "C05: lazy model differs from eager model (decoder view)");
-            return;
-        }
+        assert!(l.quantile_function(q) == e.quantile_function(q), "C05: lazy model differs from eager model (decoder view)");
     }
 }
 
@@ -555,9 +552,12 @@ pub fn lazy_vs_eager_small_p8() {
     assert!(e.is_ok() == l.is_ok(), "C05/C19: lazy and eager constructors disagree on accepting the table");
     if let (Ok(e), Ok(l)) = (e, l) {
         let s: usize = any();
-        assert!(l.left_cumulative_and_probability(s) == e.left_cumulative_and_probability(s), "C05: lazy model differs from eager model (encoder view)");
         let q: u8 = any();
-        assert!(l.quantile_function(q) == e.quantile_function(q), "C05: lazy model differs from eager model (decoder view)");
+        if group(2) == 0 {
+            assert!(l.left_cumulative_and_probability(s) == e.left_cumulative_and_probability(s), "C05: lazy model differs from eager model (encoder view)");
+            assert!(l.quantile_function(q) == e.quantile_function(q), "C05: lazy model differs from eager model (decoder view)");
+            return;
+        }
         // the lazy model on its own terms (C03 / C10): the decoded symbol is in the support, its interval holds
         // the quantile and is the one the encoder view reports
         let (sq, cq, pq) = l.quantile_function(q);
